@@ -25,6 +25,8 @@ def run(ctx) -> None:
     jsonrules.rule_K3(ctx)
     ctx.rules_run.append("K3b")
     jsonrules.rule_K3b(ctx)     # the Timestamp text at distinguished microsecond values: 0 / 3 / 6 zero-padded digits
+    ctx.rules_run.append("K3c")
+    jsonrules.rule_K3c(ctx)     # ... and at aware datetimes with non-zero UTC offsets: the text denotes the same instant
     jsonrules.rule_J1(ctx)
     jsonrules.rule_J6(ctx)
     from .c19 import rule_K6
